@@ -53,6 +53,10 @@ def _cases_first_call(tier):
         if with_bounds and levels == 3:
             out.append({'kind': 'function', 'positive': positive, 'deep_first': deep_first, 'bounds': True, 'separate': separate,
                         'levels': levels, 'second': False, 'bounds_as_coordinate': True})
+        if positive is not None and levels == 3:
+            for spelling in ('capitalize', 'upper'):
+                out.append({'kind': 'function', 'positive': positive, 'deep_first': deep_first, 'bounds': with_bounds,
+                            'separate': separate, 'levels': levels, 'second': False, 'spelling': spelling})
         if positive is not None and levels == 3 and separate:
             out.append({'kind': 'function', 'positive': positive, 'deep_first': deep_first, 'bounds': with_bounds,
                         'separate': separate, 'levels': levels, 'second': 'shared'})
@@ -126,6 +130,11 @@ def make_dataset(case):
         info['zgrid'] = {'dim': 'kg', 'levels': levels + 1, 'positive': coord2.attrs['positive'], 'bounds': 'zgrid_bnds',
                          'data': [('w', 0)], 'sign': -1.0 if coord2.attrs['positive'] == 'up' else 1.0, 'offset': 0.0}
     ds = xr.Dataset(variables).set_coords([n for n in info])
+    if case.get('spelling'):
+        # CF: the value of `positive` is case-insensitive ("Down", "UP")
+        for n in info:
+            if 'positive' in ds[n].attrs:
+                ds[n].attrs['positive'] = getattr(ds[n].attrs['positive'], case['spelling'])()
     if case.get('bounds_as_coordinate'):
         ds = ds.set_coords([meta['bounds'] for meta in info.values() if meta['bounds']])
     return ds, info
